@@ -551,12 +551,20 @@ class World:
         rc = bool(desc["rc"])
         escaped = None
         st = None
-        with warnings.catch_warnings():
-            warnings.simplefilter("error", stackscope.InspectionWarning)
-            try:
-                st = stackscope.extract(start, recurse_child_tasks=rc)
-            except BaseException as ex:  # property: extract does not raise
-                escaped = repr(ex)
+        intr = desc.get("intr")
+        intr_state = None
+        if intr:
+            intr_state = self.arm_interleaving(intr)
+        try:
+            with warnings.catch_warnings():
+                warnings.simplefilter("error", stackscope.InspectionWarning)
+                try:
+                    st = stackscope.extract(start, recurse_child_tasks=rc)
+                except BaseException as ex:  # property: extract does not raise
+                    escaped = repr(ex)
+        finally:
+            if intr_state is not None:
+                self.disarm_interleaving(intr_state)
 
         problems = []
         dirty = []
@@ -607,10 +615,75 @@ class World:
                 oracle = self.direct(st, start, rc, world, [fids.get(id(f.pyframe), UNKNOWN) for f in st.frames])
             except Exception as ex:  # the oracle itself must not take the run down
                 oracle = ["fatal", "oracle crashed: " + repr(ex)]
+        if intr_state is not None and oracle is None and intr_state["problem"]:
+            oracle = ["fatal", intr_state["problem"]]
         self.result = {"world": world, "stack": obs, "nurs": sorted(nurs_tab.items()),
                        "kids": sorted(kids_tab.items()), "oracle": oracle, "clean": not dirty,
+                       "interleaved": bool(intr_state and intr_state.get("interleaved")),
                        "nframes": len(fkeep)}
         del fkeep[:]
+
+    # --- a second thread inside an extraction of its own, with other options, while the tree is
+    #     being extracted: scheduled deterministically through stackscope._verif ("glue:enter" is
+    #     reached once at the start of every stack that gets extracted)
+    def arm_interleaving(self, intr):
+        from stackscope import _verif
+        st = {"problem": None, "started": 0, "go": threading.Event(), "inside": threading.Event(),
+              "done": threading.Event(), "result": [], "main": threading.current_thread(), "prev": _verif.hook}
+        if not _verif.ENABLED:
+            st["problem"] = "STACKSCOPE_VERIF is not enabled: the interleaving cannot be scheduled"
+            return st
+
+        def gen():
+            yield 1
+
+        g = gen()
+        next(g)
+
+        def other():
+            import stackscope
+            st["go"].wait(10)
+            if st["done"].is_set():
+                return
+            try:
+                st["result"].append(stackscope.extract(g, with_contexts=bool(intr["wc"]),
+                                                       recurse_child_tasks=bool(intr["rc"])))
+            except BaseException as ex:
+                st["result"].append(ex)
+
+        def hook(tag, info):
+            if tag != "glue:enter":
+                return
+            if threading.current_thread() is st["main"]:
+                st["started"] += 1
+                if st["started"] == int(intr["at"]):
+                    st["go"].set()
+                    if not st["inside"].wait(10):
+                        st["problem"] = "the second thread never entered its extraction"
+            else:
+                st["inside"].set()
+                st["done"].wait(10)        # stay inside extract() until the tree is finished
+
+        st["thread"] = threading.Thread(target=other, daemon=True)
+        st["thread"].start()
+        _verif.hook = hook
+        return st
+
+    def disarm_interleaving(self, st):
+        from stackscope import _verif
+        st["done"].set()
+        st["go"].set()
+        if "thread" in st:
+            st["thread"].join(10)
+            _verif.hook = st["prev"]
+            if st["problem"] is None and st["inside"].is_set():
+                r = st["result"]
+                if not (r and not isinstance(r[0], BaseException) and r[0].error is None
+                        and [f.pyframe.f_code.co_name for f in r[0].frames] == ["gen"]):
+                    st["problem"] = "the second thread's own extract() came out wrong: %r" % (r,)
+            elif st["problem"] is None:
+                st["problem"] = None      # fewer stacks than `at`: nothing was interleaved (recorded)
+        st["interleaved"] = st["inside"].is_set()
 
     # --- property oracle on the implementation alone (live objects)
     def direct(self, st, start, rc, world, gids):
